@@ -410,6 +410,11 @@ func (its *PushPullHandler) evaluatePushPullCase() (pushPullCase, errors.OrdaErr
 		if its.datatypeDoc == nil {
 			return caseMatchNothing, nil
 		}
+		if its.datatypeDoc.CollectionNum != its.collectionDoc.Num {
+			// a DUID is looked up without its collection: a datatype of another collection is not this client's to use.
+			its.datatypeDoc = nil
+			return caseError, errors.PushPullAbortionOfClient.New(its.ctx.L(), "the datatype of the DUID belongs to another collection")
+		}
 		return caseUsedDUID, nil
 	}
 	if its.datatypeDoc.Type == its.gotPushPullPack.Type.String() {
